@@ -248,7 +248,7 @@ package adaptation
 // two slices do not share a backing array (or one of them has none)
 //@ pure sep(a int, b int) = a == 0 || b == 0 || a != b
 // slice s is t, possibly re-allocated by append: same array or a fresh one
-//@ pure noNil3(n int) = n >= 0
+//@ pure mapStable(m map[string]string, m0 map[string]string) = (m0 != nil ==> m == m0) && (m0 == nil ==> m == nil || fresh(m))
 
 //@ func result.adjustArgs
 //@   props C01 C02 C03 C04
@@ -265,3 +265,37 @@ package adaptation
 //@                      && len(reply(r).Args) == len(args) - 1 && (forall i int :: 0 <= i && i < len(args) - 1 ==> reply(r).Args[i] == args[i+1])
 //@                      && view(r).Args == reply(r).Args && (len(args) > 1 ==> fresh(reply(r).Args))
 //@   ensures [ledger]   len(args) > 0 ==> ledgerKept(r) && (!old(has(r.owners, cid(r))) ==> fresh(ledger(r)) && zeroedexcept(ledger(r), "args"))
+
+// Responses decoded from the wire contain no nil elements in repeated fields
+// (assumption on plugin input, DESIGN section 8).
+//@ pure noNilCDI(s []*CDIDevice) = forall i int :: 0 <= i && i < len(s) ==> allocated(s[i])
+//@ pure noNilRlimits(s []*POSIXRlimit) = forall i int :: 0 <= i && i < len(s) ==> allocated(s[i])
+
+//@ func result.adjustCDIDevices
+//@   props C01 C02 C03
+//@   requires wfCreate(r) && noNilCDI(devices) && sep(base(devices), base(reply(r).CDIDevices))
+//@   modifies map(r.owners), ledger(r).cdiDevices, map(ledger(r).cdiDevices), reply(r).CDIDevices, elems(reply(r).CDIDevices)
+//@   ensures [noop]    len(devices) == 0 ==> result == nil && reply(r).CDIDevices == old(reply(r).CDIDevices) && ledgerSame(r) && ledger(r).cdiDevices == old(ledger(r).cdiDevices)
+//@   ensures [c01]     forall i int :: 0 <= i && i < len(devices) && old(has(ledger(r).cdiDevices, devices[i].Name)) ==> result != nil
+//@   ensures [c02]     (forall i int :: 0 <= i && i < len(devices) ==> !old(has(ledger(r).cdiDevices, devices[i].Name)))
+//@                  && (forall i int, j int :: 0 <= i && i < j && j < len(devices) ==> devices[i].Name != devices[j].Name) ==> result == nil
+//@   ensures [merge]   result == nil ==> len(reply(r).CDIDevices) == old(len(reply(r).CDIDevices)) + len(devices)
+//@                  && (forall i int :: 0 <= i && i < old(len(reply(r).CDIDevices)) ==> reply(r).CDIDevices[i] == old(reply(r).CDIDevices[i]))
+//@                  && (forall i int :: 0 <= i && i < len(devices) ==> reply(r).CDIDevices[old(len(reply(r).CDIDevices)) + i] == devices[i])
+//@   ensures [owned]   result == nil ==> forall i int :: 0 <= i && i < len(devices) ==> ledger(r).cdiDevices[devices[i].Name] == plugin && has(ledger(r).cdiDevices, devices[i].Name)
+//@   ensures [kept]    forall k string :: old(has(ledger(r).cdiDevices, k)) ==> has(ledger(r).cdiDevices, k) && ledger(r).cdiDevices[k] == old(ledger(r).cdiDevices[k])
+//@   ensures [ledger]  len(devices) > 0 ==> ledgerKept(r) && (!old(has(r.owners, cid(r))) ==> fresh(ledger(r)) && zeroedexcept(ledger(r), "cdiDevices"))
+//@   ensures [arr]     base(reply(r).CDIDevices) == old(base(reply(r).CDIDevices)) || fresh(reply(r).CDIDevices)
+//@   loop 1 invariant 0 <= idx + 1 && idx + 1 <= len(devices)
+//@   loop 1 invariant ledgerKept(r) || (idx == 0 - 1 && ledgerSame(r))
+//@   loop 1 invariant idx >= 0 ==> ledgerKept(r) && (!old(has(r.owners, cid(r))) ==> fresh(ledger(r)) && zeroedexcept(ledger(r), "cdiDevices"))
+//@   loop 1 invariant idx == 0 - 1 ==> ledgerSame(r) && ledger(r).cdiDevices == old(ledger(r).cdiDevices) && reply(r).CDIDevices == old(reply(r).CDIDevices)
+//@   loop 1 invariant forall k string :: old(has(ledger(r).cdiDevices, k)) ==> has(ledger(r).cdiDevices, k) && ledger(r).cdiDevices[k] == old(ledger(r).cdiDevices[k])
+//@   loop 1 invariant forall i int :: 0 <= i && i <= idx ==> !old(has(ledger(r).cdiDevices, devices[i].Name)) && has(ledger(r).cdiDevices, devices[i].Name) && ledger(r).cdiDevices[devices[i].Name] == plugin
+//@   loop 1 invariant len(reply(r).CDIDevices) == old(len(reply(r).CDIDevices)) + idx + 1
+//@   loop 1 invariant forall i int :: 0 <= i && i < old(len(reply(r).CDIDevices)) ==> reply(r).CDIDevices[i] == old(reply(r).CDIDevices[i])
+//@   loop 1 invariant forall i int :: 0 <= i && i <= idx ==> devices[i] == reply(r).CDIDevices[old(len(reply(r).CDIDevices)) + i]
+//@   loop 1 invariant base(reply(r).CDIDevices) == old(base(reply(r).CDIDevices)) || fresh(reply(r).CDIDevices)
+//@   loop 1 invariant wfCreate(r) && cid(r) == old(cid(r)) && reply(r) == old(reply(r))
+//@   loop 1 invariant mapStable(ledger(r).cdiDevices, old(ledger(r).cdiDevices))
+//@   loop 1 invariant forall k string :: has(ledger(r).cdiDevices, k) && !old(has(ledger(r).cdiDevices, k)) ==> exists i int :: 0 <= i && i <= idx && devices[i].Name == k
